@@ -31,13 +31,6 @@ Proof.
 Qed.
 
 (* ------------------------------------------------------------------ for _, n := range node.F { v.visit(n) } *)
-(* the variables the loop defines: one binding of v per iteration *)
-Fixpoint loop_env (v : nat) (f : string) (n j : nat) (en : list (nat * gv)) : list (nat * gv) :=
-  match n with
-  | O => en
-  | S n' => loop_env v f n' (S j) ((v, VNode (PIndex f j)) :: en)
-  end.
-
 Section VisitLoop.
 Variable c : cconfig.
 Variable M : sem.
@@ -50,37 +43,46 @@ Variable v : nat.
 Definition visit_body : nat -> gst -> (res -> res) -> res :=
   fun j s1 k1 =>
     exec_list c M rec self cp [SVisit None (GVar v)]
-      (bind_var (Some v) (VNode (PIndex f j)) (bind_var None (VZ (Z.of_nat j)) s1)) k1.
+      (bind_var (Some v) (VNode (PIndex f j)) (bind_var None (VZ (Z.of_nat j)) s1))
+      (fun o => k1 (end_iteration (g_env s1) o)).
+
+(* the loop variable is new, and going out of scope gives the variables of before *)
+Definition loop_scope_ok (en : list (nat * gv)) : Prop :=
+  (forall w, upd_var v w en = None) /\
+  (forall w, map (fun xv => (fst xv, match lookup_var (fst xv) ((v, w) :: en) with Some u => u | None => snd xv end)) en
+             = en).
 
 Lemma visit_loop : forall rest pre pre' en cur cols er k,
+  loop_scope_ok en ->
   get_list self f = Some (pre ++ rest) ->
   List.length pre' = List.length pre ->
   get_list cur f = Some (pre' ++ rest) ->
   (forall x, In x rest -> forall cols st, rec cols x st = Some (visit c cols x st)) ->
   range_loop visit_body (List.length rest) (List.length pre) (mkG en cur cols er) k =
   let '(rest', er') := CheckProofs.vlist c cols rest er in
-  k (RNormal (mkG (loop_env v f (List.length rest) (List.length pre) en) (set_list cur f (pre' ++ rest')) cols er')).
+  k (RNormal (mkG en (set_list cur f (pre' ++ rest')) cols er')).
 Proof.
-  induction rest as [|x r IH]; intros pre pre' en cur cols er k Hself Hlen Hcur Hrec.
-  - cbn [List.length CheckProofs.vlist loop_env]. rewrite range_loop_O.
+  induction rest as [|x r IH]; intros pre pre' en cur cols er k Hen Hself Hlen Hcur Hrec.
+  - cbn [List.length CheckProofs.vlist]. rewrite range_loop_O.
     rewrite (set_list_same _ _ _ Hcur). reflexivity.
-  - cbn [List.length CheckProofs.vlist loop_env]. rewrite range_loop_S.
+  - cbn [List.length CheckProofs.vlist]. rewrite range_loop_S.
     unfold visit_body at 1. rewrite exec_list_cons, exec_visit.
-    cbn [eval bind_var set_env g_env lookup_var]. rewrite Nat.eqb_refl.
+    destruct Hen as [Hupd Hres].
+    cbn [eval bind_var set_env g_env]. rewrite Hupd. cbn [lookup_var]. rewrite Nat.eqb_refl.
     cbn [get_node]. rewrite Hself, nth_error_mid.
     cbn [g_cols g_err]. rewrite (Hrec x (or_introl eq_refl)).
     destruct (visit c cols x er) as [[t x'] er1].
     cbn [set_node g_cur set_cur set_err]. rewrite Hcur, <- Hlen, set_nth_mid.
     cbn [bind_var set_env g_env].
-    rewrite exec_list_nil.
+    rewrite exec_list_nil. cbn [end_iteration restore_env g_env set_env]. rewrite Hres.
     rewrite (app_cons_assoc pre x r) in Hself.
     assert (Hlen' : List.length (pre' ++ [x']) = List.length (pre ++ [x])) by (rewrite !length_snoc; lia).
     assert (Hcur' : get_list (set_list cur f (pre' ++ x' :: r)) f = Some ((pre' ++ [x']) ++ r)).
     { rewrite <- app_cons_assoc. eapply get_set_list. exact Hcur. }
-    specialize (IH (pre ++ [x]) (pre' ++ [x']) ((v, VNode (PIndex f (List.length pre'))) :: en)
-                   (set_list cur f (pre' ++ x' :: r)) cols er1 k Hself Hlen' Hcur'
+    specialize (IH (pre ++ [x]) (pre' ++ [x']) en
+                   (set_list cur f (pre' ++ x' :: r)) cols er1 k (conj Hupd Hres) Hself Hlen' Hcur'
                    (fun y Hy => Hrec y (or_intror Hy))).
-    rewrite length_snoc in IH. rewrite Hlen in IH |- *. rewrite IH.
+    rewrite length_snoc in IH. rewrite Hlen. rewrite IH.
     destruct (CheckProofs.vlist c cols r er1) as [r' er2].
     rewrite set_set_list, <- app_cons_assoc. reflexivity.
 Qed.
